@@ -701,3 +701,5 @@ def run(ctx):
     from . import c05 as _c05
     ctx.do(_c05.r5_3)  # an expunged message's key leaves every flag set (or the next message with that key inherits them)
     ctx.do(r4_11)
+    from . import c15 as _c15b
+    ctx.do(_c15b.r15_4)  # STORE addresses exactly the messages its set denotes
